@@ -47,7 +47,7 @@ def gen_ledger_text(rng, ntxn=None, with_errors=False, conversions=True):
     for k in range(ntxn):
         date = date + datetime.timedelta(days=rng.range(0, 40))
         kind = rng.weighted([('expense', 5), ('salary', 2), ('buy', 2), ('sell', 1), ('fx', 1), ('price', 2),
-                             ('note', 1), ('event', 1), ('document', 1), ('padbal', 1), ('three', 2)])
+                             ('note', 1), ('event', 1), ('document', 1), ('padbal', 1), ('three', 2), ('same', 2)])
         if kind == 'fx' and not conversions:
             kind = 'expense'
         if kind == 'price':
@@ -114,6 +114,19 @@ def gen_ledger_text(rng, ntxn=None, with_errors=False, conversions=True):
             posting('Expenses:Food', fmt_amount(a1, 'USD'), meta=pmeta)
             posting('Expenses:Rent', fmt_amount(a2, 'USD'))
             posting('Assets:Bank:Checking', fmt_amount(-(a1 + a2), 'USD'))
+        elif kind == 'same':
+            # two postings on one account (siblings sharing the account) and two lots bought in one transaction
+            a1 = Decimal(rng.range(100, 5000)) / 100
+            a2 = Decimal(rng.range(100, 5000)) / 100
+            posting('Expenses:Food', fmt_amount(a1, 'USD'), meta=pmeta)
+            posting('Expenses:Food', fmt_amount(a2, 'USD'))
+            if rng.chance(1, 2):
+                n = Decimal(rng.range(1, 9))
+                cost = prices['ACME']
+                lots.append([n, cost, date])
+                posting('Assets:Broker:ACME', fmt_amount(n, 'ACME'), ' {%s}' % fmt_amount(cost, 'USD'))
+                posting('Assets:Bank:Checking', fmt_amount(-(n * cost), 'USD'))
+            posting('Assets:Bank:Checking', fmt_amount(-(a1 + a2), 'USD'))
         elif kind == 'salary':
             amt = Decimal(rng.range(1000, 5000))
             posting('Assets:Bank:Checking', fmt_amount(amt, 'USD'), meta=pmeta)
@@ -152,6 +165,10 @@ def gen_ledger_text(rng, ntxn=None, with_errors=False, conversions=True):
         lines.append('%s close Liabilities:Card' % date.isoformat())
     lines.append('%s query "bal" "SELECT account, sum(position) GROUP BY 1 ORDER BY 1"' % date.isoformat())
     lines.append('%s query "food" "SELECT date, position FROM year >= 2019 WHERE account ~ \'Food\'"' % date.isoformat())
+    closed = start + datetime.timedelta(days=rng.range(20, 200))
+    lines.append('%s query "closed" "SELECT date, account, position FROM year >= 2019 CLOSE ON %s WHERE number > 0"' % (
+        date.isoformat(), closed.isoformat()))
+    lines.append('%s query "closedbare" "SELECT count(*) AS n FROM OPEN ON %s CLOSE"' % (date.isoformat(), closed.isoformat()))
     if with_errors:
         lines.append('%s * "unbalanced"' % date.isoformat())
         lines.append('  Expenses:Food  10 USD')
